@@ -408,17 +408,24 @@ def main(argv):
         # search for a failing input with more seeds before giving up
         found = None
         search_log = []
-        if not any(p.startswith("correspondence: harness build") for p in broken) and not custom:
+        if not any(p.startswith("correspondence: harness build") for p in broken):
             budget = cfg.get("search_seeds", 3 if tier == "quick" else 8)
+            if custom:
+                budget = 1 if tier == "quick" else 2
             ok, out, dt, exe = build_harness(profiles[0])
             for k in range(budget):
                 s2 = seed * 1000 + 17 + k
                 outdir = os.path.join(WORK, f"{pid}-search")
-                r = standard_run(pid, cfg, exe, s2, "thorough" if k else tier, outdir, profiles[0], model=False)
+                if custom:
+                    # custom runners: same seed first, exhaustively (thorough tier), then another seed
+                    s2 = seed if k == 0 else s2
+                    r = custom(dict(pid=pid, cfg=cfg, exe=exe, seed=s2, tier="thorough", outdir=outdir, profile=profiles[0], engine=sys.modules[__name__]))
+                else:
+                    r = standard_run(pid, cfg, exe, s2, "thorough" if k else tier, outdir, profiles[0], model=False)
                 nf = [f for f in r["fails"] if not match_known(pid, f, known)]
                 search_log.append({"seed": s2, "cases": r["evaluations"], "oracle_failures": len(nf)})
                 if nf:
-                    found = (s2, "thorough" if k else tier, nf[0])
+                    found = (s2, "thorough" if (k or custom) else tier, nf[0])
                     break
         if found:
             s2, t2, f0 = found
